@@ -49,6 +49,11 @@ type Refreshed<C> = (BTreeMap<Identifier<C>, KeyPackage<C>>, PublicKeyPackage<C>
 
 fn dealer_refresh<C: Ciphersuite, L: Lab<C>>(lab: &mut L, keys: &Keys<C>, rem: &[Identifier<C>]) -> Option<Refreshed<C>> {
     lab.enter("dealer-refresh");
+    // the identifier list is the caller's and need not be ascending: handed over rotated
+    let mut rem: Vec<Identifier<C>> = rem.to_vec();
+    let by = rem.len() / 2;
+    rem.rotate_left(by);
+    let rem = &rem[..];
     let r = compute_refreshing_shares::<C, _>(keys.1.clone(), rem, lab.rng());
     if !lab.check(r.is_ok(), "compute_refreshing_shares succeeds for a remaining set of at least t known participants") {
         lab.leave();
